@@ -368,8 +368,6 @@ def register(reg, prog):
                  ensures={'a-message': 'result.code is not None or True'},
                  trusted_reason='abstract method of the resource interface (the application handler)')
     reg.contracts[BW + ':Block2Cache.extract_or_insert'].ghost = lg_result('extract_or_insert', 'self', 'req', 'response_builder')
-    reg.externals['builtins.hasattr'] = lambda ex, st, args, kw, node: [(st, VBool(True))]
-    reg.assume('A-HASATTR: hasattr(self, "_block1") is true (Resource.__init__ was called)')
 
     def rtp_exit(ex, s, entry, env, result):
         adds = evs(s, 'pipe_add_response')
